@@ -3,6 +3,7 @@
 # Confirms a sub-agent's seeded change in a scratch worktree (compiles, suite passes, demo fails with / passes without),
 # then runs the property's check against /repo with the patch applied and undoes it. Stores everything in /verif/seeded/<name>/.
 set -u
+if [ -n "$(git -C /repo status --short | grep -v '^??')" ]; then echo "refusing: /repo has uncommitted changes (they would be lost by the checkout that undoes the patch)"; exit 2; fi
 name=$1; prop=$2; out=$3; pkg=$4; shift 4
 dst=/verif/seeded/$name; mkdir -p $dst
 cp $out/patch.diff $dst/patch.diff; cp $out/demo_test.go $dst/demo_test.go; cp $out/meta.md $dst/agent_meta.md 2>/dev/null
